@@ -5,6 +5,7 @@
 -/
 import Bridge.Abs
 import PtaProofs.Lemmas.GlobLabel
+import PtaProofs.Lemmas.KwargsOrder
 namespace Pta.C17
 open Pta PtaSpec
 
@@ -25,11 +26,34 @@ theorem unknown_alias (nodes : List Str) (aliases : List (Str × Str)) (h : ∃ 
     ∃ who, plotLabels nodes aliases = .error (.lookupError, who) ∧ who ∉ nodes ∧ who ∈ aliases.map (·.1) :=
   Pta.unknown_alias_lemma nodes aliases h
 
-/-- remaining drawing options are handed to the backend unchanged; `spacing` / `aliases` are consumed -/
-theorem kwargs_passthrough (kw : List KwArg) (k : Str) :
-    (KwArg.other k ∈ drawKwargs kw ↔ KwArg.other k ∈ kw) ∧ KwArg.spacing ∉ drawKwargs kw ∧ KwArg.aliases ∉ drawKwargs kw ∧
+/-- remaining drawing options are handed to the backend unchanged — key AND value (`KwArg.other k v`: the keyword `k` with
+    an opaque token `v` for its value); `spacing` / `aliases` are consumed -/
+theorem kwargs_passthrough (kw : List KwArg) (k v : Str) :
+    (KwArg.other k v ∈ drawKwargs kw ↔ KwArg.other k v ∈ kw) ∧ KwArg.spacing ∉ drawKwargs kw ∧ KwArg.aliases ∉ drawKwargs kw ∧
     (KwArg.spacing ∈ kw → KwArg.pos ∈ drawKwargs kw) ∧ (KwArg.aliases ∈ kw → KwArg.labels ∈ drawKwargs kw) :=
-  Pta.kwargs_passthrough_lemma kw k
+  Pta.kwargs_passthrough_lemma kw k v
+
+/-- audit finding F12 — order and values: the (key, value) pairs of the remaining options reach the backend in the SAME
+    ORDER, with the same values and multiplicities (`kwargs` is an insertion-ordered dict; `pair?` reads the pair of an
+    `other` keyword) -/
+theorem kwargs_passthrough_ordered (kw : List KwArg) :
+    (drawKwargs kw).filterMap KwArg.pair? = kw.filterMap KwArg.pair? :=
+  Pta.drawKwargs_pairs kw
+
+/-- … and the exact argument list: the given keywords without `spacing` / `aliases`, in their order, followed by `pos`
+    iff `spacing` was given and then by `labels` iff `aliases` was given (`spacing` / `aliases` are consumed and REPLACED) -/
+theorem kwargs_exact (kw : List KwArg) :
+    drawKwargs kw = kw.filter KwArg.kept ++ (if KwArg.spacing ∈ kw then [KwArg.pos] else []) ++
+      (if KwArg.aliases ∈ kw then [KwArg.labels] else []) :=
+  Pta.drawKwargs_shape kw
+
+/-! non-vacuity: `draw(node_size=7, spacing=…, ax=AX, aliases=…, node_size'=8)` -/
+example : drawKwargs [.other "node_size".toList "7".toList, .spacing, .other "ax".toList "AX".toList, .aliases,
+      .other "with_labels".toList "True".toList] =
+    [.other "node_size".toList "7".toList, .other "ax".toList "AX".toList, .other "with_labels".toList "True".toList,
+     .pos, .labels] := by decide
+example : (drawKwargs [.other "a".toList "1".toList, .aliases, .other "b".toList "2".toList]).filterMap KwArg.pair? =
+    [("a".toList, "1".toList), ("b".toList, "2".toList)] := by decide
 
 /-! non-vacuity: `p.ab` keeps its name although `p.a` has an alias -/
 example : plotLabels ["p".toList, "p.a".toList, "p.ab".toList, "p.a.x".toList] [("p.a".toList, "A".toList)]
